@@ -740,6 +740,87 @@ class History(object):
             self.kill_strays()
 
 
+def trickle_case(b, rundir, rng, part, hid, attempt=0):
+    """The start timeout is counted from the start, not from the latest request that joined it: one sender keeps
+    auto-starting a service that never takes its name, one call every 0.6 x service_start_timeout.  Every call gets its
+    error; the first one must have it about one timeout after it was sent, however many calls joined meanwhile.
+    Returns None (fine / not judged) or a description of the lateness."""
+    os.makedirs(rundir, exist_ok=True)
+    os.chmod(rundir, 0o755)
+    svcdir = os.path.join(rundir, "services")
+    os.makedirs(svcdir)
+    name = b"com.example.Trickle"
+    with open(os.path.join(svcdir, "trickle.service"), "w") as fh:
+        fh.write("[D-BUS Service]\nName=%s\nExec=/bin/sleep 14\n" % name.decode())
+    T = rng.choice([1000, 1200])
+    n = rng.choice([9, 10, 12])
+    d = busproc.Daemon(b, rundir, busproc.make_config("@SOCK@", servicedirs=[svcdir], limits={"service_start_timeout": T}), name="t")
+    late = None
+    try:
+        if not d.started():
+            part.inconclusive.append("trickle: daemon did not start")
+            return None
+        c = client.connect(d.sock)
+        sent = {}
+        arrived = {}
+        gap = 0.6 * T / 1000.0
+        t0 = time.monotonic()
+        nxt = t0
+        i = 0
+        deadline = t0 + n * gap + T / 1000.0 + client.WATCHDOG
+        while len(arrived) < n and time.monotonic() < deadline:
+            now = time.monotonic()
+            if i < n and now >= nxt:
+                ser = c.call_async(name, b"/t", ACT_IFACE, b"Call", b"s", [b"trickle-%d" % i])
+                sent[ser] = (i, time.monotonic())
+                i += 1
+                nxt += gap
+                continue
+            c.pump(timeout=0.02)
+            for rec in c.take_inbox():
+                rs = rec.msg.known().get(5)
+                if rec.msg.type in (2, 3) and rs in sent and rs not in arrived:
+                    arrived[rs] = (time.monotonic(), rec.msg.type, rec.msg.known().get(4))
+                elif rec.msg.type in (2, 3) and rs in arrived:
+                    part.violation("%s:answered-2-times:call:trickle" % PROP, "a waiting call received a second answer",
+                                   {"part": "trickle", "history": hid})
+        part.count("trickle-cases")
+        part.count("trickle-calls", n)
+        if len(arrived) < n:
+            part.violation("%s:hang:trickle" % PROP, "%d of %d auto-start calls to a service that never takes its name had no answer "
+                           "%.0f s after the last one was sent" % (n - len(arrived), n, client.WATCHDOG), {"part": "trickle", "history": hid, "T": T})
+            return None
+        lag = []
+        for ser, (idx, ts) in sorted(sent.items(), key=lambda kv: kv[1][0]):
+            lag.append(round(arrived[ser][0] - ts, 2))
+        part.sig("trickle", T, n, min(int(lag[0] * 1000 / T), 9))
+        part.extra_max = max(getattr(part, "extra_max", 0.0), lag[0] - T / 1000.0)
+        if lag[0] > T / 1000.0 + 4.0:
+            late = "first call answered %.2f s after it was sent (service_start_timeout %d ms, %d further calls joined every %.2f s); " \
+                   "answer delays of all calls: %r" % (lag[0], T, n - 1, gap, lag)
+        c.close()
+    finally:
+        d.stop()
+        if attempt and late:
+            pass
+        for cls, site, text in d.problems():
+            part.violation("%s:%s:%s" % (PROP, cls, site), "bus reported %s (trickle)" % cls, {"part": "trickle", "stderr": text[-2000:]})
+        shutil.rmtree(rundir, ignore_errors=True)
+    return late
+
+
+def run_trickle(b, rundir, seed, shard, i, part):
+    """a lateness is reported only when a second, independent run shows it again (a loaded machine can delay one run)"""
+    hid = shard * 100000 + 90000 + i
+    late = trickle_case(b, os.path.join(rundir, "t%d" % i), gen.rng_for(seed, PROP, "trickle", shard, i), part, hid)
+    if late:
+        part.count("trickle-late-once")
+        late2 = trickle_case(b, os.path.join(rundir, "t%d-again" % i), gen.rng_for(seed, PROP, "trickle", shard, i), part, hid, 1)
+        if late2:
+            part.violation("%s:timeout-error-late:joined-start" % PROP, "waiters of a start that never succeeds get their error late when "
+                           "further requests join it (twice): " + late2, {"part": "trickle", "history": hid, "first_run": late})
+
+
 def run_history(b, rundir, seed, shard, i, part):
     hid = shard * 100000 + i
     h = History(b, os.path.join(rundir, "h%d" % i), gen.rng_for(seed, PROP, shard, i), part, hid)
@@ -1007,7 +1088,10 @@ def _worker(args):
     b = build.build("asan", quiet=True)
     rundir = tempfile.mkdtemp(prefix="verif-c19-")
     try:
-        if kind == "daemon":
+        if kind == "trickle":
+            for i in range(count):
+                run_trickle(b, rundir, seed, shard, i, part)
+        elif kind == "daemon":
             for i in range(count):
                 h = run_history(b, rundir, seed, shard, i, part)
                 if shard == 0 and i < 2:
@@ -1059,8 +1143,13 @@ def run(tier, seed, replay=None, scale=1.0):
         shards.append(("daemon", seed, i, max(1, nh // 16)))
     for i in range(16):
         shards.append(("helper", seed, i, max(1, nc // 16)))
+    nt = int((8 if tier == "quick" else 200) * scale)
+    for i in range(min(8, nt)):
+        shards.append(("trickle", seed, i, max(1, nt // 8)))
     for part in report.run_sharded(_worker, shards):
         r.merge(part)
+        r.extra["trickle_first_answer_excess_max_s"] = round(max(r.extra.get("trickle_first_answer_excess_max_s", 0.0),
+                                                                 getattr(part, "extra_max", 0.0)), 2)
     r.extra["outcomes"] = {k[8:]: int(v) for k, v in sorted(r.counters.items()) if k.startswith("outcome:")}
     if scale >= 1:
         for k in ("outcome:call:delivered", "outcome:call:error", "outcome:signal:delivered", "outcome:signal:error",
@@ -1075,6 +1164,8 @@ def run(tier, seed, replay=None, scale=1.0):
                   "behaviour:gate-quick", "behaviour:gate-exit-before-n", "behaviour:gate-exit-after-n"):
             r.require(k, 1)
         r.require("survivors-answered-after-departure", 20)
+    if scale >= 1:
+        r.require("trickle-cases", 6)
     r.require("process-starts", 5)
     r.require("helper-invocations", 20)
     r.require("bus-shutdowns-scraped", 3)
